@@ -614,18 +614,23 @@ model's `buildTiled`).**  If `_check_and_cast_pixel_array` accepts the `R × C` 
 returns for the tiles is the tile stack of the array it returns for the matrix, and `SegmentsOverlap` is the same -- for all
 four layouts and all types: every check is a maximum, the existence of a pixel with a property, or a per-pixel conversion,
 every pixel of the matrix lies in a tile, and the padding of edge tiles is background, which no check notices.  So the
-hypothesis `buildTiled … = .ok o` of (10d) speaks about the object the constructor builds.  (The converse -- a refused matrix
-is refused tile-wise too -- is carried by the `tiled` correspondence stream, L0 ok-vs-refused.) -/
+hypothesis `buildTiled … = .ok o` of (10d) speaks about the object the constructor builds.  And a matrix that is refused is
+refused tile-wise, with the same kind of error (second part): a channel count that does not fit, an undescribed label, a
+non-binary stack, a float out of range, an overlap for a LABELMAP ... sits in some pixel of the matrix, hence in some tile. -/
 theorem cast_then_cut_is_cut_then_cast (segs : List Nat) (t : SegType) (R C tr tc : Nat) (hR : 1 ≤ R) (hC : 1 ≤ C)
-    (htr : 1 ≤ tr) (htc : 1 ≤ tc) (m : Mask) (hnp : m.numPlanes = 1) (hsz : ∀ sz ∈ m.planeSizes, sz = R * C)
-    (arr : Mask) (ov : Overlap) (hcm : castMask segs t m = .ok (arr, ov)) :
-    castMask segs t (tileMask R C tr tc m) = .ok (tileMask R C tr tc arr, ov) :=
-  castMask_tileMask segs t R C tr tc hR hC htr htc m hnp hsz arr ov hcm
+    (htr : 1 ≤ tr) (htc : 1 ≤ tc) (m : Mask) (hnp : m.numPlanes = 1) (hsz : ∀ sz ∈ m.planeSizes, sz = R * C) :
+    (∀ arr ov, castMask segs t m = .ok (arr, ov) →
+      castMask segs t (tileMask R C tr tc m) = .ok (tileMask R C tr tc arr, ov)) ∧
+    (∀ e, castMask segs t m = .error e → castMask segs t (tileMask R C tr tc m) = .error e) :=
+  ⟨fun arr ov hcm => castMask_tileMask segs t R C tr tc hR hC htr htc m hnp hsz arr ov hcm,
+   fun e hcm => castMask_tileMask_error segs t R C tr tc hR hC htr htc m hnp hsz e hcm⟩
 
 /-- non-vacuity of (10f): a stacked float matrix for a LABELMAP (cast to integers, combined to the described numbers) -/
 example : castMask [3, 7] .labelmap (.fltStack [[[1,0],[0,1],[0,0]]]) = .ok (.intLabel [[3,7,0]], .no) ∧
     castMask [3, 7] .labelmap (tileMask 1 3 1 2 (.fltStack [[[1,0],[0,1],[0,0]]])) =
-      .ok (tileMask 1 3 1 2 (.intLabel [[3,7,0]]), .no) := by decide +kernel
+      .ok (tileMask 1 3 1 2 (.intLabel [[3,7,0]]), .no) ∧
+    castMask [3, 7] .labelmap (.intStack [[[1,0],[0,1],[1,1]]]) = .error .value ∧
+    castMask [3, 7] .labelmap (tileMask 1 3 1 2 (.intStack [[[1,0],[0,1],[1,1]]])) = .error .value := by decide +kernel
 
 /-- non-vacuity of (10d): a 3 × 5 LABELMAP matrix with labels 3 and 300 in 2 × 2 tiles (six tiles, edge tiles padded, three
 tiles empty and omitted) is accepted: frames for tiles 0, 2 and 3 ... -/
